@@ -128,7 +128,7 @@ func (s *updogServer) waitDead() bool {
 }
 
 func (s *updogServer) query(req *updogv1.QueryRequest) (*updogv1.QueryResponse, error) {
-	ctx, cancel := context.WithTimeout(context.Background(), 20*time.Second)
+	ctx, cancel := context.WithTimeout(context.Background(), 8*time.Second)
 	defer cancel()
 	return s.client.Query(ctx, req)
 }
